@@ -46,11 +46,11 @@ type Gen struct {
 // Weights of step families; zero disables (swarm variation).
 type Weights struct {
 	Register, Deregister, KV, Session, Txn, Reap, Advance, Snapshot, Restart, Fault, Ext int
-	KVLockBias                                                                     int // extra weight of lock/unlock among KV verbs
-	Peer                                                                           bool
-	Kinds                                                                          bool
-	InPlaceKind                                                                    bool
-	NoGatewayWildcard                                                              bool
+	KVLockBias                                                                           int // extra weight of lock/unlock among KV verbs
+	Peer                                                                                 bool
+	Kinds                                                                                bool
+	InPlaceKind                                                                          bool
+	NoGatewayWildcard                                                                    bool
 }
 
 func NewGen(r *rand.Rand, u Universe, w Weights) *Gen { return &Gen{R: r, U: u, W: w} }
@@ -190,6 +190,11 @@ func (g *Gen) fillService(s *Step) {
 		}
 		if s.Kind != "" && s.Kind != "connect-proxy" && s.Kind != "connect-native" && s.SvcID != "" {
 			s.SvcID = s.Svc + g.pick([]string{"1", "2"})
+			if g.W.InPlaceKind && simkit.Chance(g.R, 50) {
+				// one instance id shared by all gateway kinds: an in-place change between
+				// two non-typical kinds (and service names)
+				s.SvcID = "gw" + g.pick([]string{"1", "2"})
+			}
 		}
 	}
 }
